@@ -163,7 +163,7 @@ def _init_worker(modname: str, seed: int, quiet: bool = True):
 def _run_one(case: dict) -> dict:
     t0 = time.time()
     try:
-        r = _MOD.run_case(case, _SEED)
+        r = _MOD.run_case(case, _SEED + 7919 * int(case.get("_stream", 0)))
         r.setdefault("key", case["key"])
         r.setdefault("fails", [])
         r["wall"] = time.time() - t0
@@ -194,6 +194,11 @@ def run_check(prop: str, tier: str, seed: int, jobs: int, quiet: bool = True) ->
     mod = importlib.import_module(modname)
     t_start = time.time()
     cases = list(mod.cases(tier, seed))
+    # thorough tier: the same enumerated structure under several independent fill streams (the enumerated structure does not
+    # depend on the seed; only the "generic" numbers do).  Stream 0 keeps the plain keys.
+    streams = int(os.environ.get("VERIF_THOROUGH_STREAMS", getattr(mod, "THOROUGH_STREAMS", 1))) if tier == "thorough" else 1
+    if streams > 1:
+        cases = cases + [dict(c, key=f"{c['key']}@fill{st}", _stream=st) for st in range(1, streams) for c in cases]
     keys = [c["key"] for c in cases]
     if len(set(keys)) != len(keys):
         dup = [k for k in set(keys) if keys.count(k) > 1][:3]
@@ -352,7 +357,7 @@ def run_check(prop: str, tier: str, seed: int, jobs: int, quiet: bool = True) ->
         "caps_hit": (["wall budget %.0fs: %d of %d cases completed" % (budget_s, len(results), len(cases))] if capped else []),
         "skipped": skipped,
         "known_findings_matched": matched_counts,
-        "bounds": getattr(mod, "BOUNDS", {}).get(tier, ""),
+        "bounds": getattr(mod, "BOUNDS", {}).get(tier, "") + (f"; the whole enumerated structure under {streams} independent fill streams" if streams > 1 else ""),
         "determinism_selftest_cases": len(sample_cases),
     }
     if paths:
